@@ -9,6 +9,7 @@ PROFILE = {
                 'call': 3, 'api_disconnect': 1, 'enter': 0, 'leave': 0, 'close': 0, 'rooms': 0, 'lost': 2,
                 'partial_binary': 0},
     'connect_outcomes': {'accept': 9, 'false': 1, 'refuse': 0, 'raise': 0},
+    'burst_acks': True,
 }
 
 
@@ -50,6 +51,9 @@ def oracle(cfg, trace, residue):
         allowed = []
         if op['op'] in ('frame', 'frameval'):
             client_packet(op, im, allowed)
+        elif op['op'] == 'burst':
+            for f in op['frames']:
+                client_packet(f, im, allowed)
         elif op['op'] == 'call':
             pass
         elif op['op'] == 'lost':
